@@ -144,40 +144,26 @@ def build (lMax N order : Nat) (accuracy : α) : Table α :=
   let K := (Array.range (N + 1)).map fun i => tabulateRow dfac N order lmax accuracy i
   { lMax := lMax, N := N, scale := (N : α) / (16 : Nat), K := K, dK := K.map (derivRows lMax tc) }
 
+/-- overwrite entries 0 … maxL of `init` with `val l` (in order), leave the rest as it was -/
+def setRange (init : Array α) (maxL : Nat) (val : Nat → α) : Array α :=
+  (List.range (maxL + 1)).foldl (fun v l => v.set! l (val l)) init
+
 /-- `calculate(z, maxL, values)`: all orders 0..maxL; `init` is what `values` held before the call -/
 def calcAll (T : Table α) (small : α) (z : α) (maxL : Nat) (init : Array α) : Array α :=
   let tc := Gen.TAYLOR_CUT
   match regime small z with
-  | .nonpos => Id.run do
-      -- K_0 = 1 and K_l = 0 for l > 0
-      let mut v := init.set! 0 1
-      for l in [1:maxL + 1] do
-        v := v.set! l 0
-      return v
-  | .small => Id.run do
-      let mut v := init.set! 0 (1 - z)
-      for l in [1:maxL + 1] do
-        v := v.set! l (smallAll z l)
-      return v
-  | .large => Id.run do
+  | .nonpos => setRange init maxL fun l => if l = 0 then 1 else 0       -- K_0 = 1 and K_l = 0 for l > 0
+  | .small => setRange init maxL fun l => if l = 0 then 1 - z else smallAll z l
+  | .large =>
       let v0 : α := ((1 : α) / (2 : Nat)) / z
-      let mut v := init.set! 0 v0
-      for l in [1:maxL + 1] do
-        v := v.set! l (largeAll v0 l)
-      return v
-  | .table => Id.run do
+      setRange init maxL fun l => if l = 0 then v0 else largeAll v0 l
+  | .table =>
       let ix := Num.floorNat (z * T.scale + (1 : α) / (2 : Nat))
       let dz := z - (ix : α) / T.scale
       if Num.abs dz < ((1 : α) / ((1000000000000 : Nat) : α)) then
-        let mut v := init
-        for l in [0:maxL + 1] do
-          v := v.set! l (T.K[ix]!)[l]!
-        return v
+        setRange init maxL fun l => (T.K[ix]!)[l]!
       else
-        let mut v := init
-        for l in [0:maxL + 1] do
-          v := v.set! l (taylorAll tc dz fun n => ((T.dK[ix]!)[n]!)[l]!)
-        return v
+        setRange init maxL fun l => taylorAll tc dz fun n => ((T.dK[ix]!)[n]!)[l]!
 
 /-- `calculate(z, L)`: one order -/
 def calcOne (T : Table α) (small : α) (z : α) (L : Nat) : α :=
